@@ -211,6 +211,16 @@ impl<'a> Exec<'a> {
                 }
             }
         }
+        if matches!(obs, Obs::Horizon) && !matches!(e, Obs::Horizon) {
+            // the call ran past the end of the scripted readings: it read the timer more often than the
+            // native twin's cost leaves room for. How many readings a collection needs is C12's matter;
+            // this path cannot be decided here and is reported as undecided, never as a verdict.
+            if counters.horizon_paths == 0 {
+                self.ctx.machinery(&format!("rounds {}: after [{}], {} on the {} did not return within the scripted readings ({} read); path undecided", self.rounds, steps_short(hist), op.short(), who, used));
+            }
+            counters.horizon_paths += 1;
+            return false;
+        }
         if obs != e {
             // classify: did the call hand out the pending half instead of collecting?
             let key = if tail_corner && used == 0 {
@@ -382,6 +392,7 @@ struct Counters {
     clone_from_into_half_pending: u64,
     aborted_calls: u64,
     known_corner: u64,
+    horizon_paths: u64,
 }
 
 pub fn run(reg: &dyn Registry, ctx: &Ctx) -> Outcome {
@@ -403,7 +414,7 @@ pub fn run(reg: &dyn Registry, ctx: &Ctx) -> Outcome {
     let configs: Vec<(u8, usize)> = if thorough { vec![(1, 5), (2, 4), (3, 4), (64, 3), (255, 2)] } else { vec![(1, 4), (2, 3), (3, 3), (64, 2), (255, 2)] };
     for (rounds, depth) in configs {
         let max_words = depth * 2 + 2;
-        let readings = jitter_env::benign_readings(ctx.seed ^ 0x16 ^ ((rounds as u64) << 16), rounds, max_words, 8);
+        let readings = jitter_env::benign_readings(ctx.seed ^ 0x16 ^ ((rounds as u64) << 16), rounds, max_words, 8 + max_words * (jitter_env::readings_per_word(3).saturating_sub(jitter_env::readings_per_word(rounds)) + 4));
         // native twin: next_u64 only
         let (native, cost) = native_twin(reg, &readings, rounds, None, 0, max_words);
         let ex = Exec { ctx, init_pool: None, rounds, per_word: jitter_env::readings_per_word(rounds), native: &native, cost: &cost, readings: &readings };
@@ -443,7 +454,7 @@ pub fn run(reg: &dyn Registry, ctx: &Ctx) -> Outcome {
     for rounds in [1u8, 3] {
         let depth = 3;
         let max_words = depth * 2 + 2;
-        let readings = jitter_env::benign_readings(ctx.seed ^ 0x16CC ^ ((rounds as u64) << 16), rounds, max_words, 8);
+        let readings = jitter_env::benign_readings(ctx.seed ^ 0x16CC ^ ((rounds as u64) << 16), rounds, max_words, 8 + max_words * (jitter_env::readings_per_word(3).saturating_sub(jitter_env::readings_per_word(rounds)) + 4));
         let mut pools: Vec<u64> = jitter_env::SPECIAL_WORDS.iter().filter_map(|&t| jitter_env::solve_pool_for_first_output(reg, &readings, rounds, t)).collect();
         for (_, eqs) in jitter_env::two_word_relations() {
             if let Some(p) = jitter_env::solve_pool_for_relation(reg, &readings, rounds, &eqs) {
